@@ -28,6 +28,19 @@ type edgeOut struct {
 	from *ssa.BasicBlock
 }
 
+// inlineFrame: an in-module callee without a contract, without loops, defers or free variables, is executed symbolically at the
+// call site (its obligations become obligations of the caller); rets collects its return edges.
+type inlineFrame struct {
+	fn   *ssa.Function
+	rets []inlineRet
+}
+
+type inlineRet struct {
+	cond Term
+	st   *State
+	vals []Val
+}
+
 type loopInfo struct {
 	head    *ssa.BasicBlock
 	blocks  map[*ssa.BasicBlock]bool
@@ -81,6 +94,7 @@ type FnCtx struct {
 	ancCache    map[*ssa.BasicBlock]map[int]bool
 	lastFroms   []*ssa.BasicBlock
 	lastChain   []*ssa.BasicBlock
+	inlineStack []*inlineFrame
 	lastVias    []string
 	dropped     map[*Clause]bool
 	facts       []Term
